@@ -5,6 +5,7 @@ import GrinVerif.Model.PowPack
 import GrinVerif.Model.PowSelect
 import GrinVerif.Model.PowCtx
 import GrinVerif.Model.PowDiff
+import GrinVerif.Model.PowSize
 /-! Driver glue for the `pow` domain (line protocol handler), property C05.
 
 ops (see harness/src/bin/pow.rs):
@@ -22,6 +23,10 @@ ops (see harness/src/bin/pow.rs):
   very object where the API shows them), `hfind => [[..],..]|nosol|err|panic` (`find_cycles`),
   `hverify <tag> [nonces] => ok|<err>`: the model verdict is a function of the keys of the LAST
   `hseed` only; FAIL when accept/reject differs from the independent oracle on that header's graph
+* the node's entry point: `vsize <chain> height eb <pre_pow hex> [nonces] => ok|noctx|<err>|panic`
+  (`pow::verify_size` on a header with these fields under that chain type): FAIL when accept/reject
+  differs from the rule (a context exists for (chain, height, eb), exactly proofsize nonces,
+  ascending, in range, one simple cycle of the pre_pow-seeded graph), DIFF on the error kind
 * difficulty over the full parameter space: `gw <chain> height eb => weight` (`graph_weight`),
   `todiff <chain> height eb secondary_scaling <packedhex> => n` (`ProofOfWork::to_difficulty`),
   `undiff <packedhex> => n` (`to_unscaled_difficulty`)
@@ -207,6 +212,24 @@ def handle (st : St) (args : List String) (impl : String) : St × Verdict :=
     match nat? scale, parseHex hx with
     | some sc, some bs => (st, cmpSpec (toString (scaledDifficulty sc bs)) impl)
     | _, _ => (st, .unknown)
+  | ["vsize", chain, h, eb, pre, ns] =>
+    match ChainType.ofString? chain, nat? h, nat? eb, parseHex pre, parseNatList ns with
+    | some c, some h, some eb, some pre, some ns =>
+      let name := match verifySize c h eb pre ns with
+        | .ok _ => "ok"
+        | .error e => e.name
+      let o := match selectVariant c h eb with
+        | none => false
+        | some v =>
+          -- the count first: the keys / endpoints are only needed for a full-length proof
+          ns.length == proofsizeOf c &&
+            oracleAccept v (proofsizeOf c) (2^eb - 1) (epOf v (keysOfHeader pre none) eb) ns
+      if (impl == "ok") != o then
+        let what := if impl == "ok" then "ACCEPTS" else s!"REFUSES ({impl})"
+        let oa := if o then "accept" else "refuse"
+        (st, .fail s!"verify_size {what} a header with {ns.length} nonces (proofsize {proofsizeOf c}); rule={oa} model={name}")
+      else (st, cmpModel name impl)
+    | _, _, _, _, _ => (st, .unknown)
   | ["gw", chain, h, eb] =>
     match ChainType.ofString? chain, nat? h, nat? eb with
     | some c, some h, some eb => (st, cmpModel (toString (graphWeight c h eb)) impl)
